@@ -694,9 +694,6 @@ impl<T: GseDecapMemory, C: CrcCalculator, MHEM: MandatoryHeaderExtensionManager>
             }
         };
 
-        // read pdu
-        pdu_buffer[..calculed_pdu_len].copy_from_slice(&buffer[offset..offset + calculed_pdu_len]);
-
         // check pdu buffer size
         let pdu_buffer_len = pdu_buffer.len();
         if pdu_buffer_len + label_len + PROTOCOL_LEN + FRAG_ID_LEN + TOTAL_LENGTH_LEN < gse_len {
@@ -707,6 +704,9 @@ impl<T: GseDecapMemory, C: CrcCalculator, MHEM: MandatoryHeaderExtensionManager>
             }
             return Err((DecapError::ErrorSizePduBuffer, pkt_len));
         }
+
+        // read pdu
+        pdu_buffer[..calculed_pdu_len].copy_from_slice(&buffer[offset..offset + calculed_pdu_len]);
 
         let metadata = DecapMetadata {
             pdu_len: 0,
